@@ -44,6 +44,9 @@ func VerifHarness_C08_PNG_Skeleton() {
 	var in []byte
 	switch verifChoice(3) {
 	case 0:
+		// optionally with a 300-byte tEXt chunk (far more than a hundred reads from a
+		// source that delivers 1-3 bytes per call)
+		VerifBigAncillary = []int{0, 300}[verifChoice(2)]
 		in, _ = VerifBuildPNG(verifChoice(2))
 	case 1: // with an embedded profile (the compressed bytes reach the inflate stub)
 		in, _, _, _ = VerifBuildPNGICC(verifChoice(2), 1, 8)
